@@ -12,9 +12,9 @@ pub struct C16P;
 pub static C16: C16P = C16P;
 
 pub const HANDLES: &[&str] = &["!", "!!", "!e!", "!f!", "!a-b!"];
-pub const PREFIXES: &[&str] = &["tag:e.example,2000:", "!p-", "tag:yaml.org,2002:", "tag:x.example:app/", "!"];
-pub const NAMES: &[&str] = &["x", "foo-bar", "str", "a%21b", "e%C3%A9", "%E4%B8%AD", "%F0%9F%98%80z", "x%20y", "%41", "caf%c3%a9", "n1"];
-pub const URIS: &[&str] = &["tag:v.example:x", "!local", "tag:yaml.org,2002:str", "x:y/z?q=1"];
+pub const PREFIXES: &[&str] = &["tag:e.example,2000:", "!p-", "tag:yaml.org,2002:", "tag:x.example:app/", "!", "tag:x_y.example:"];
+pub const NAMES: &[&str] = &["x", "foo-bar", "str", "a%21b", "e%C3%A9", "%E4%B8%AD", "%F0%9F%98%80z", "x%20y", "%41", "caf%c3%a9", "n1", "my_type", "a.b_c", "_u", "x/y;z=1~*'()"];
+pub const URIS: &[&str] = &["tag:v.example:x", "!local", "tag:yaml.org,2002:str", "x:y/z?q=1", "tag:v.example:my_type", "urn:a_b:c-d"];
 pub const DEFAULT_SECONDARY: &str = "tag:yaml.org,2002:";
 
 #[derive(Clone, Debug)]
@@ -42,6 +42,10 @@ pub struct DocSpec {
     pub root_tag: TagUse,
     pub flow_root: bool,
     pub nodes: Vec<NodeSpec>,
+    /// a later document without directives may be written bare after a `...` line
+    pub bare: bool,
+    /// no blank between a tag and a following `,` / `]` in flow context
+    pub tight: bool,
 }
 
 /// percent-decoding: octets, then UTF-8
@@ -76,7 +80,9 @@ fn tag_text(t: &TagUse) -> String {
 pub fn render(docs: &[DocSpec]) -> String {
     let mut out = String::new();
     for (k, d) in docs.iter().enumerate() {
-        if k > 0 && (!d.tags.is_empty() || d.yaml_pos.is_some() || d.reserved) {
+        let has_directives = !d.tags.is_empty() || d.yaml_pos.is_some() || d.reserved;
+        let bare = d.bare && k > 0 && !has_directives;
+        if k > 0 && (has_directives || bare) {
             out.push_str("...\n");
         }
         let mut lines: Vec<String> = d.tags.iter().map(|(h, p)| format!("%TAG {} {}", HANDLES[*h], PREFIXES[*p])).collect();
@@ -90,14 +96,18 @@ pub fn render(docs: &[DocSpec]) -> String {
             out.push_str(&l);
             out.push('\n');
         }
-        out.push_str("---");
+        if !bare {
+            out.push_str("---");
+        }
         let rt = tag_text(&d.root_tag);
         if d.flow_root {
             if !rt.is_empty() {
-                out.push(' ');
+                if !bare {
+                    out.push(' ');
+                }
                 out.push_str(&rt);
             }
-            out.push_str(" [");
+            out.push_str(if bare && rt.is_empty() { "[" } else { " [" });
             for (i, n) in d.nodes.iter().enumerate() {
                 if i > 0 {
                     out.push_str(", ");
@@ -107,7 +117,7 @@ pub fn render(docs: &[DocSpec]) -> String {
                 let sep = if t.is_empty() { "" } else { " " };
                 match n.shape % 5 {
                     0 => out.push_str(&format!("{sep}v{i}")),
-                    1 => out.push_str(if t.is_empty() { "null" } else { " " }),
+                    1 => out.push_str(if t.is_empty() { "null" } else if d.tight { "" } else { " " }),
                     2 => out.push_str(&format!("{sep}[a, b]")),
                     3 => out.push_str(&format!("{sep}{{k: v}}")),
                     _ => out.push_str(&format!("{sep}\"q{i}\"")),
@@ -116,10 +126,14 @@ pub fn render(docs: &[DocSpec]) -> String {
             out.push_str("]\n");
         } else {
             if !rt.is_empty() {
-                out.push(' ');
+                if !bare {
+                    out.push(' ');
+                }
                 out.push_str(&rt);
             }
-            out.push('\n');
+            if !(bare && rt.is_empty()) {
+                out.push('\n');
+            }
             for (i, n) in d.nodes.iter().enumerate() {
                 out.push('-');
                 let t = tag_text(&n.tag);
@@ -273,8 +287,10 @@ pub fn doc_spec() -> impl Strategy<Value = DocSpec> {
         tag_use(),
         proptest::bool::weighted(0.3),
         proptest::collection::vec((tag_use(), 0u8..30).prop_map(|(tag, shape)| NodeSpec { tag, shape }), 1..5),
+        proptest::bool::weighted(0.3),
+        any::<bool>(),
     )
-        .prop_map(|(yaml_pos, mut tags, dedup, reserved, root_tag, flow_root, nodes)| {
+        .prop_map(|(yaml_pos, mut tags, dedup, reserved, root_tag, flow_root, nodes, bare, tight)| {
             if dedup {
                 // half of the documents declare each handle at most once
                 let mut seen = vec![];
@@ -284,7 +300,7 @@ pub fn doc_spec() -> impl Strategy<Value = DocSpec> {
                     fresh
                 });
             }
-            DocSpec { yaml_pos, tags, reserved, root_tag, flow_root, nodes }
+            DocSpec { yaml_pos, tags, reserved, root_tag, flow_root, nodes, bare, tight }
         })
 }
 
@@ -316,7 +332,7 @@ pub fn spec_json(docs: &[DocSpec], keep: bool) -> Value {
         "keep_tags": keep,
         "text": render(docs),
         "docs": docs.iter().map(|d| json!({
-            "yaml_pos": d.yaml_pos, "tags": d.tags, "reserved": d.reserved, "root_tag": tu(&d.root_tag), "flow_root": d.flow_root,
+            "yaml_pos": d.yaml_pos, "tags": d.tags, "reserved": d.reserved, "root_tag": tu(&d.root_tag), "flow_root": d.flow_root, "bare": d.bare, "tight": d.tight,
             "nodes": d.nodes.iter().map(|n| json!({"tag": tu(&n.tag), "shape": n.shape})).collect::<Vec<_>>(),
         })).collect::<Vec<_>>(),
     })
@@ -344,6 +360,8 @@ fn spec_from_json(v: &Value) -> (Vec<DocSpec>, bool) {
                     reserved: d["reserved"].as_bool().unwrap_or(false),
                     root_tag: tu(&d["root_tag"]),
                     flow_root: d["flow_root"].as_bool().unwrap_or(false),
+                    bare: d["bare"].as_bool().unwrap_or(false),
+                    tight: d["tight"].as_bool().unwrap_or(false),
                     nodes: d["nodes"].as_array().map(|n| n.iter().map(|x| NodeSpec { tag: tu(&x["tag"]), shape: x["shape"].as_u64().unwrap_or(0) as u8 }).collect()).unwrap_or_default(),
                 })
                 .collect()
